@@ -13,6 +13,9 @@
   `c01_holds_as_written` (the C01 monitor, judged by the claims AS WRITTEN, holds for the verifier run on the claims AS
   DECODED), `c01_future_iat_refused` / `c01_expired_refused` / `c01_written_valid_accepted` (the statement's time clauses
   spelled out for any spelling).
+  The int64 edge (finding F-C01a, fixed): `numberSeconds_not_wrapped`, `c01_decoded_number_not_wrapped`, `c01_wrap_zone_refused` -
+  a NumericDate whose instant `time.Unix` would wrap around is not a time and is refused by the regenerated decoder, so the
+  statements above hold for every number without an assumption about the top of the int64 range.
 -/
 import OidcModel.Proofs.C01
 import OidcModel.Proofs.C01Construct
@@ -43,10 +46,14 @@ theorem F64.lt_int (a : F64) (n : Int) : decide (a < ({ floor := n } : F64)) = (
 theorem F64.int_le (a : F64) (n : Int) : decide (({ floor := n } : F64) ≤ a) = (!a.nan && decide (n ≤ a.floor)) := F64.ge_int a n
 theorem F64.int_gt (a : F64) (n : Int) : decide (({ floor := n } : F64) > a) = (!a.nan && decide (a.floor < n)) := F64.lt_int a n
 
+/-- the conversion `Time(x)` / `int64(x)` of a float, wherever it stands in the guard -/
+theorem F64.toInt64_mk (fl : Int) (fr nan : Bool) :
+    F64.toInt64 { floor := fl, frac := fr, nan := nan } = if fl < 0 ∧ fr = true then fl + 1 else fl := rfl
+
 theorem numberSeconds_mk (fl : Int) (fr nan : Bool) :
     numberSeconds { floor := fl, frac := fr, nan := nan } =
-      if nan = false ∧ -9223372036854775808 ≤ fl ∧ fl ≤ 9223372036854775807 then
-        some (F64.toInt64 { floor := fl, frac := fr, nan := nan }) else none := rfl
+      if nan = false ∧ -9223372036854775808 ≤ fl ∧ fl ≤ 9223371974719179007 then
+        some (if fl < 0 ∧ fr = true then fl + 1 else fl) else none := rfl
 
 set_option linter.unusedSimpArgs false in
 /-- `(*oidc.Time).UnmarshalJSON`, for every document, every answer of encoding/json and of time.Parse: the result is what
@@ -61,7 +68,7 @@ theorem timeUnmarshalJSON_eq (now : Int) (o : Oracles) (ts0 : Int) (data : Strin
     cases doc with
     | num x =>
       rcases x with ⟨fl, fr, nan⟩
-      simp only [two63, F64.neg_int, F64.bne_self', F64.beq_self', F64.ge_int, F64.lt_int, F64.int_le, F64.int_gt,
+      simp only [two63, F64.neg_int, F64.bne_self', F64.beq_self', F64.ge_int, F64.lt_int, F64.int_le, F64.int_gt, F64.toInt64_mk,
         writtenTime, numberSeconds_mk, Except.toOption, Option.bind_some]
       cases nan <;> go_leaf
     | str s =>
@@ -152,6 +159,52 @@ theorem c01_guard_instant (now : Int) (o : Oracles) (text : String) (x : F64) (s
     (GenC01T.TimeUnmarshalJSON now o 0 text).toOption.map (GenC01T.TimeAsTime now) = some (ns s) := by
   rw [timeUnmarshalJSON_eq, hj]
   simp [Except.toOption, writtenTime, hs, timeAsTime_eq]
+
+/-! ### the int64 edge (finding F-C01a, fixed): no decoded number is an instant `time.Unix` wraps around
+
+  The model's instants (`ns`, `Cdw.timeUnix`) are unbounded integers; Go's `time.Unix(sec, 0)` adds 62135596800 to `sec` in
+  int64 arithmetic (`unixInternalSeconds`).  The two agree exactly when that sum does not wrap around.  Up to the fix the
+  decoder admitted every int64 and the theorems of this file spoke about the real guards only under the (unstated) assumption
+  that no claim lies in the last 62135596800 seconds of the int64 range; now the regenerated decoder refuses those, so the
+  statements hold for EVERY JSON number. -/
+
+/-- a number that names whole seconds (`numberSeconds`) names an instant `time.Unix` computes without wrap-around -/
+theorem numberSeconds_not_wrapped (x : F64) (s : Int) (h : numberSeconds x = some s) :
+    -9223372036854775808 ≤ s ∧ s ≤ maxInstantSeconds ∧ unixInternalSeconds s = s + 62135596800 := by
+  rcases x with ⟨fl, fr, nan⟩
+  rw [numberSeconds_mk] at h
+  unfold maxInstantSeconds unixInternalSeconds
+  split at h
+  · simp only [Option.some.injEq] at h
+    split at h <;> omega
+  · cases h
+
+/-- every value the regenerated `Time.UnmarshalJSON` hands out for a JSON NUMBER - whatever the number, whatever encoding/json
+    answers - is a second count whose `time.Unix` does not wrap around: the instant the real guards compare is `ns s` -/
+theorem c01_decoded_number_not_wrapped (now : Int) (o : Oracles) (ts0 : Int) (text : String) (x : F64) (s : Int)
+    (hj : o.jsonAny text = .ok (.num x)) (hd : (GenC01T.TimeUnmarshalJSON now o ts0 text).toOption = some s) :
+    s ≤ maxInstantSeconds ∧ unixInternalSeconds s = s + 62135596800 ∧
+      (unixInternalSeconds s - 62135596800) * second = Cdw.timeUnix s 0 := by
+  rw [timeUnmarshalJSON_eq, hj] at hd
+  simp only [Except.toOption, Option.bind_some, writtenTime] at hd
+  obtain ⟨_, h2, h3⟩ := numberSeconds_not_wrapped x s hd
+  refine ⟨h2, h3, ?_⟩
+  rw [h3]; simp [Cdw.timeUnix, Go.tUnix]
+
+/-- a JSON number whose whole seconds lie beyond the last instant `time.Time` can hold is REFUSED by the regenerated decoder
+    (it is not a time: the payload is not a decodable ID Token) - this is the theorem that stops checking when the range
+    guard of `Time.UnmarshalJSON` admits the wrap zone again -/
+theorem c01_wrap_zone_refused (now : Int) (o : Oracles) (ts0 : Int) (text : String) (x : F64)
+    (hj : o.jsonAny text = .ok (.num x)) (hx : maxInstantSeconds < x.floor) :
+    (GenC01T.TimeUnmarshalJSON now o ts0 text).toOption = none := by
+  rw [timeUnmarshalJSON_eq, hj]
+  rcases x with ⟨fl, fr, nan⟩
+  simp only [Except.toOption, Option.bind_some, writtenTime, numberSeconds_mk]
+  unfold maxInstantSeconds at hx
+  simp only at hx
+  split
+  · omega
+  · rfl
 
 /-- **C01 for tokens as written**: the verifier, run on the claims as DECODED by the regenerated decoder, satisfies the
     monitor that judges by the claims as WRITTEN - for every configuration, token, spelling of the time claims, JSON reader,
@@ -257,6 +310,14 @@ example : (GenC01T.TimeUnmarshalJSON 0 exJson 0 "1790768359.999").toOption = som
 example : (GenC01T.TimeUnmarshalJSON 0 exJson 0 "-1.5").toOption = some (-1) := by decide
 example : (GenC01T.TimeUnmarshalJSON 0 exJson 0 "\"1790768359\"").toOption = none := by decide
 example : (GenC01T.TimeUnmarshalJSON 0 exJson 7 "null").toOption = some 0 := by decide
+/-- F-C01a: `"iat":9223372036854774784` (a second `time.Unix` wraps around to a date in the far past) is refused; the last
+    second before the wrap zone is decoded, and `time.Unix`'s int64 sum wraps exactly from the next one on -/
+example : (GenC01T.TimeUnmarshalJSON 0 { jsonAny := fun _ => .ok (.num { floor := 9223372036854774784 }) } 0 "9223372036854774784").toOption = none := by decide
+example : (GenC01T.TimeUnmarshalJSON 0 { jsonAny := fun _ => .ok (.num { floor := 9223371974719179008 }) } 0 "").toOption = none := by decide
+example : (GenC01T.TimeUnmarshalJSON 0 { jsonAny := fun _ => .ok (.num { floor := 9223371974719179007, frac := true }) } 0 "").toOption = some 9223371974719179007 := by decide
+example : (GenC01T.TimeUnmarshalJSON 0 { jsonAny := fun _ => .ok (.num { floor := -9223372036854775808 }) } 0 "").toOption = some (-9223372036854775808) := by decide
+example : unixInternalSeconds 9223371974719179007 = 9223372036854775807 ∧ unixInternalSeconds 9223371974719179008 = -9223372036854775808
+    ∧ unixInternalSeconds 9223372036854774784 < 0 ∧ unixInternalSeconds (-9223372036854775808) = -9223372036854775808 + 62135596800 := by decide
 /-- the accepted example token of Proofs/C01, its iat written in scientific notation one hour ahead: refused -/
 example : (run exV (withClaims exTok (claimsAsDecoded exNow exJson { exClaims with exp := 0, iat := 0 } { exp := some "17e8", iat := some "17e8" })) none exNow).toOption = none := by decide
 /-- `aud` written as one string containing a space is ONE audience (not two) -/
